@@ -271,9 +271,9 @@ func init() {
 				}
 			}
 			// S1v: as S1, each thread validating the shared configuration before it packages
-			for ci := 0; ci < n; ci++ {
-				if !env.Thorough() && ci != 1 && ci != 2 && ci != n-3 && ci != n-2 && ci != n-1 {
-					continue
+			for ci, d := range sharingConfigs(env) {
+				if _, hasOv := d["overrides"]; !env.Thorough() && ci != 1 && !hasOv {
+					continue // quick: the configurations with override blocks (what Validate walks), and one without
 				}
 				for _, pr := range [][]string{{"deb", "rpm"}, {"rpm", "apk"}, {"archlinux", "ipk"}, {"deb", "deb"}} {
 					if !yield(C12Case{Config: ci, Mode: "S1v", Formats: pr}) {
